@@ -7,9 +7,30 @@
    back-translation: n = inlen, bound = outlen, direct = outputPos, inverse = inputPos.        *)
 From Coq Require Import List ZArith Bool.
 From Lou Require Import Gen.GConst Model.Finish Model.Table Model.Ref Model.Compile Model.Engine.
-From Lou Require Import Proofs.FinishProofs.
+From Lou Require Import Proofs.FinishProofs Gen.GPosMap Proofs.PosMapTie.
 Import ListNotations.
 Local Open Scope Z_scope.
+
+(* Layer 0: Model/Finish.v is written with exactly the comparisons and values of the CURRENT source: the operators
+   REGENERATED from the finishing loops of _lou_translate and _lou_backTranslate (Gen/GPosMap.v) equal the ones the
+   model's scan, fill, tail and clamp are made of (PosMapTie.scan_unfold / fill_unfold / inverse_unfold). *)
+Theorem source_operators_are_the_model : forall p a b bound,
+  fwd_scan_enter p a = model_enter p a /\
+  fwd_scan_fill_while a p = (a <? p) /\
+  fwd_scan_store_guard a bound = model_store_guard a bound /\
+  fwd_scan_store_value b = model_store_value b /\
+  (if fwd_scan_tail_reset a then 0 else a) = model_tail_start a /\
+  fwd_scan_tail_while a bound = (a <? bound) /\
+  fwd_clamp p bound = clamp bound p /\
+  back_scan_enter p a = model_enter p a /\
+  back_scan_fill_while a p = (a <? p) /\
+  back_scan_store_guard a bound = model_store_guard a bound /\
+  back_scan_store_value b = model_store_value b /\
+  (if back_scan_tail_reset a then 0 else a) = model_tail_start a /\
+  back_scan_tail_while a bound = (a <? bound) /\
+  back_clamp p bound = clamp bound p.
+Proof. exact PosMapTie.source_operators_are_the_model_l. Qed.
+Print Assumptions source_operators_are_the_model.
 
 Definition H (pm : list Z) (n : nat) (bound : Z) (arr0 : list Z) : Prop :=
   (1 <= n)%nat /\ (n <= length pm)%nat /\ 1 <= bound /\ 0 <= nth 0 pm 0 /\ bound <= Z.of_nat (length arr0).
